@@ -150,6 +150,10 @@ impl ProgressStyle {
             "at least 2 progress chars required"
         );
         self.char_width = width(&self.progress_chars);
+        assert!(
+            self.char_width > 0,
+            "progress chars must not be zero-width"
+        );
         self
     }
 
